@@ -33,6 +33,7 @@ import (
 func Register(s Suites) {
 	s.Add("C16", runWalk)
 	s.Add("C04", runParse)
+	s.Add("C04", runReport)
 }
 
 // Case is one encoder configuration + image content (the scope of suites/pipe).
